@@ -61,6 +61,20 @@ def _selection(prog, f):
                         st = prog.const(ast.parse(a[2], mode="eval").body, module, env, cls)
                         if isinstance(st, (tuple, list, frozenset)) and all(isinstance(x, EnumMember) for x in st):
                             return {"names": {x.name for x in st}, "polarity": a[3], "source": src}
+        # the same selection written as a comprehension: (v for v in <x>.placeholders if <test on v.element.ph_type>)
+        for g_ in [n for n in ast.walk(node) if isinstance(n, (ast.GeneratorExp, ast.ListComp)) and len(n.generators) == 1
+                   and isinstance(n.generators[0].target, ast.Name)]:
+            gen = g_.generators[0]
+            src = P_.norm(gen.iter, al)
+            v = gen.target.id
+            if not src.endswith(".placeholders") or dotted(g_.elt) != v:
+                continue
+            for c in gen.ifs:
+                for a in P_.atoms(c, True, al):
+                    if a[0] == "in" and a[1] == v + ".element.ph_type":
+                        st = prog.const(ast.parse(a[2], mode="eval").body, module, env, cls)
+                        if isinstance(st, (tuple, list, frozenset)) and all(isinstance(x, EnumMember) for x in st):
+                            return {"names": {x.name for x in st}, "polarity": a[3], "source": src}
         return None
 
     todo, seen = [(f, f.node if hasattr(f, "node") else f, f)], set()
